@@ -164,7 +164,7 @@ Proof. repeat split; table_agrees. Qed.
 
 (* ---- the derived (inverse) maps carry the pairs of the tables they are computed from *)
 Definition inclb (A B : table) : bool :=
-  forallb (fun nv => existsb (fun mw => String.eqb (fst nv) (fst mw) && (snd nv =? snd mw)) B) A.
+  forallb (fun nv => existsb (fun mw => String.eqb (fst nv) (fst mw) && Z.eqb (snd nv) (snd mw)) B) A.
 
 Lemma inclb_sound : forall A B, inclb A B = true -> incl A B.
 Proof.
